@@ -6,6 +6,7 @@ package psx
 import (
 	"context"
 	"math/big"
+	"net"
 	"strconv"
 	"strings"
 	"sync"
@@ -194,4 +195,111 @@ func ErrClass(err error) int {
 		return 1
 	}
 	return 8
+}
+
+// ---- a tee on the client side of a connection + a minimal RESP3 frame scanner (ground truth of what the
+// server put on the wire, independent of both the client and the fake server's bookkeeping) ----
+
+type TeeConn struct {
+	net.Conn
+	mu  sync.Mutex
+	buf []byte
+}
+
+func (t *TeeConn) Read(p []byte) (int, error) {
+	n, err := t.Conn.Read(p)
+	if n > 0 {
+		t.mu.Lock()
+		t.buf = append(t.buf, p[:n]...)
+		t.mu.Unlock()
+	}
+	return n, err
+}
+
+func (t *TeeConn) Bytes() []byte {
+	t.mu.Lock()
+	defer t.mu.Unlock()
+	return append([]byte(nil), t.buf...)
+}
+
+// Frame is a parsed RESP value: T type byte, S scalar text, A elements, Null.
+type Frame struct {
+	T    byte
+	S    string
+	A    []Frame
+	Null bool
+}
+
+// ParseFrames parses as many complete top-level RESP2/3 values as the bytes contain.
+func ParseFrames(b []byte) []Frame {
+	var out []Frame
+	pos := 0
+	for pos < len(b) {
+		f, n, ok := parseFrame(b[pos:])
+		if !ok {
+			break
+		}
+		out = append(out, f)
+		pos += n
+	}
+	return out
+}
+
+func parseFrame(b []byte) (Frame, int, bool) {
+	if len(b) == 0 {
+		return Frame{}, 0, false
+	}
+	eol := -1
+	for i := 1; i+1 < len(b); i++ {
+		if b[i] == '\r' && b[i+1] == '\n' {
+			eol = i
+			break
+		}
+	}
+	if eol < 0 {
+		return Frame{}, 0, false
+	}
+	line := string(b[1:eol])
+	hdr := eol + 2
+	switch t := b[0]; t {
+	case '+', '-', ':', ',', '#', '(':
+		return Frame{T: t, S: line}, hdr, true
+	case '_':
+		return Frame{T: t, Null: true}, hdr, true
+	case '$', '=', '!':
+		n, err := strconv.Atoi(line)
+		if err != nil {
+			return Frame{}, 0, false
+		}
+		if n < 0 {
+			return Frame{T: t, Null: true}, hdr, true
+		}
+		if len(b) < hdr+n+2 {
+			return Frame{}, 0, false
+		}
+		return Frame{T: t, S: string(b[hdr : hdr+n])}, hdr + n + 2, true
+	case '*', '~', '>', '%', '|':
+		n, err := strconv.Atoi(line)
+		if err != nil {
+			return Frame{}, 0, false
+		}
+		if n < 0 {
+			return Frame{T: t, Null: true}, hdr, true
+		}
+		if t == '%' || t == '|' {
+			n *= 2
+		}
+		f := Frame{T: t}
+		pos := hdr
+		for i := 0; i < n; i++ {
+			e, m, ok := parseFrame(b[pos:])
+			if !ok {
+				return Frame{}, 0, false
+			}
+			f.A = append(f.A, e)
+			pos += m
+		}
+		return f, pos, true
+	}
+	return Frame{}, 0, false
 }
